@@ -6,6 +6,11 @@ ALL = [f"C{i:02d}" for i in range(1, 21)]
 
 # id -> (category, technique, text, note, design_ref)
 CHECKS = {
+    "C07": ("fault_enumeration",
+            "crash-point enumeration: the quota fires at every poll index, a virtual-clock deadline passes at every clock read, every generation limit with a counting hyper-heuristic",
+            "For every problem of a slice and every configuration the number N of quota polls of the uninterrupted run is measured and the solve is repeated with a CountingQuota firing at the k-th poll for EVERY k in 0..=N; a time limit is driven by the virtual clock (hook H3) so that the deadline passes at clock read j for every j <= 40/400; max-generations {0,1,2,3,5} are run with a counting hyper-heuristic wrapper. Every solve must return Ok and the solution must pass the full oracle (C01-C03 rules); rounds <= limit.",
+            "Poll points are the library's own; workers are single-threaded deterministic processes.",
+            "DESIGN.md section 5 C07"),
     "C01": ("exploration",
             "bounded-exhaustive enumeration of small problems x solver configurations x RNG streams x split-plan policies, solved in deterministic workers and judged by an independent oracle",
             "Every problem of 11 small-problem families (core multisets of 11 job templates x fleet x shift x objectives, pickup-delivery, multi-dimensional load, skills/groups/compatibility/order/value, limits, reloads/breaks/two shifts, relations, unreachable legs, scaled profiles, infeasible, tour-shape objectives) x every configuration of a configuration alphabet (population x hyper-heuristic x generations x RNG stream x split-plan policy x initial size) plus long 12-job runs is solved by the real solver; the hard-constraint rule group of the oracle (capacity per reload interval and dimension, time windows, shift, skills, limits, groups, compatibility, order, reachability, relation pinning) is judged on every returned solution.",
